@@ -205,6 +205,16 @@ theorem rooted {norm : Id → Id} {h : H} (hw : WF h) {n : Id} {as : List Id}
   · rename_i hn; cases ha; exact hw.hier.rooted hn hne
   · cases ha
 
+/-- end-to-end form: after ANY history, every node other than the top has the top among the
+answer of `ancestors` -/
+theorem history_rooted {norm : Id → Id} {top : Id} {raw : Option (List (Id × PSpec))}
+    {dat : Option (List (Id × Dat))} {h0 : H} (hc : construct norm top raw dat = .ok h0)
+    (cs : List Call) {n : Id} {as : List Id} (ha : ancestors norm (run norm h0 cs) n = .ok as)
+    (hne : norm n ≠ norm top) : norm top ∈ as := by
+  have hi := history_invariant hc cs
+  rw [← hi.2]
+  exact rooted hi.1 ha (by rw [hi.2]; exact hne)
+
 /-- the top is a node and has no parents -/
 theorem top_is_root {h : H} (hw : WF h) : h.top ∈ keys h.hier ∧ parentsOf h.hier h.top = [] :=
   ⟨hw.hier.top_mem, hw.hier.top_parents⟩
@@ -311,12 +321,6 @@ theorem top_greatest {norm : Id → Id} {h : H} (hw : WF h) {t b : Id} (ht : nor
   · right
     have hb' : norm b ∈ keys h.hier := by simpa [contains] using hb
     exact (hw.hier.anc_iff_transGen _ _).1 (hw.hier.rooted hb' e)
-
-theorem any_mem_comm (A B : List Id) :
-    A.any (fun x => decide (x ∈ B)) = B.any (fun x => decide (x ∈ A)) := by
-  rw [Bool.eq_iff_iff]
-  simp only [List.any_eq_true, decide_eq_true_eq]
-  constructor <;> rintro ⟨x, h1, h2⟩ <;> exact ⟨x, h2, h1⟩
 
 /-- "compatibility is symmetric" — the two calls give the same answer, raising included -/
 theorem compatible_comm (norm : Id → Id) (h : H) (a b : Id) :
